@@ -45,7 +45,7 @@ SCAN_FUNCS = {"finditer", "search", "match", "findall", "fullmatch", "split", "s
 def check(ctx):
     pkg = package(ctx.tree)
     cname, cfn = species_count_method(pkg)
-    pname, pfn = species_parse_method(pkg)
+    pname, pfn = _tokenizer(pkg, cname)
     ctx.saw(SP, f"Species.{pname}")
     ctx.saw(SP, f"Species.{cname}")
 
@@ -74,6 +74,30 @@ def check(ctx):
     from .c17 import _r3 as installation_rule
     ctx.absorb(lambda sub: installation_rule(sub, package(sub.tree)), "R10",
                only=lambda o: o.key.startswith("Network.") and "installation" in o.key and o.outcome != "MISSING")
+
+
+def _tokenizer(pkg, cname):
+    """(name, FunctionDef) of the tokenizer: the Species method that, with the private steps it was split into put back
+    (pymodel.expanded; the count method stays a call), both scans the name with regular expressions and calls the count method --
+    the smallest such method, so that a pipeline of helpers and the one-piece original are the same function to the rules"""
+    ci = pkg.cls("Species")
+    best = None
+    for name in ci.methods:
+        if name == cname or (name.startswith("__") and name.endswith("__")) or "." in name:
+            continue
+        try:
+            fn = pkg.expanded("Species", name, keep=(cname,))
+        except Exception:
+            continue
+        calls = [c for c in ast.walk(fn) if isinstance(c, ast.Call) and isinstance(c.func, ast.Attribute)]
+        if not any(ast.unparse(c.func) == f"self.{cname}" for c in calls) or not any(c.func.attr in SCAN_FUNCS and c.args for c in calls):
+            continue
+        size = sum(1 for _ in ast.walk(fn))
+        if best is None or size < best[0]:
+            best = (size, name, fn)
+    if best is None:
+        return species_parse_method(pkg)
+    return best[1], best[2]
 
 
 # ------------------------------------------------------------------ R1 / R2
